@@ -16,6 +16,7 @@ pub mod s_pup;
 pub mod s_reltree;
 pub mod s_tau;
 pub mod s_exprimg;
+pub mod s_dtlat;
 pub mod s_fn;
 pub mod s_inj;
 pub mod s_filter;
@@ -74,6 +75,7 @@ fn streams() -> Vec<(&'static str, GenFn, EvalFn)> {
         ("reltree", s_reltree::gen, s_reltree::eval),
         ("taukeys", s_tau::gen, s_tau::eval),
         ("exprimg", s_exprimg::gen, s_exprimg::eval),
+        ("dtlat", s_dtlat::gen, s_dtlat::eval),
     ]
 }
 
